@@ -43,7 +43,7 @@ RULE = ("library: (sample, partition incl. empty parts, merge order, operator, e
 REACH = ["treecollectionmodel:TreeArray.update", "treecollectionmodel:TreeArray.extend", "treecollectionmodel:TreeArray.__iadd__",
          "treecollectionmodel:TreeArray.__add__", "treecollectionmodel:SplitDistribution.update", "treecollectionmodel:TreeArray.add_tree",
          "treecollectionmodel:TreeArray.insert", "treecollectionmodel:TreeArray.validate_rooting"]
-MIN_EVENTS = {"merge-compared-with-serial": (300, 8000), "alignment-invariant-checked": (2000, 50000),
+MIN_EVENTS = {"merge-compared-with-serial": (300, 8000), "source-unchanged-checked": (500, 10000), "alignment-invariant-checked": (2000, 50000),
               "empty-after-nonempty-merge": (50, 1000), "sumtrees-parallel-run-compared": (20, 200),
               "sumtrees-idle-worker-arrived-after-nonempty": (3, 20), "sumtrees-idle-worker-arrived-first": (3, 20)}
 ASSUMPTIONS = ["the serial summary of the same trees is the baseline (its exactness is C05)",
@@ -288,10 +288,18 @@ def run_library(ctx, case, rng):
         orders = list(itertools.permutations(range(k))) if k <= 3 else [tuple(rng.sample(range(k), k)) for _ in range(4)]
         if k <= 3 and len(orders) > 4 and quick:
             orders = rng.sample(orders, 4)
+        # the sub-collections are built ONCE and re-used for every arrival order: merging must not consume or
+        # change its source, so the same partial results can be merged again elsewhere
+        parts = [new_array(ns, rooted, explicit[j], cfg) for j in range(k)]
+        for i, t in enumerate(trees):
+            parts[assign[i]].add_tree(t)
+
+        def part_state(ta):
+            sd = ta.split_distribution
+            return (len(ta), dict(sd.split_counts), dict((s, sorted(v)) for s, v in sd.split_edge_lengths.items() if v),
+                    dict((s, sorted(v)) for s, v in sd.split_node_ages.items() if v), list(ta._tree_weights), ta._is_rooted_trees)
+        before_parts = [part_state(p) for p in parts]
         for order in orders:
-            parts = [new_array(ns, rooted, explicit[j], cfg) for j in range(k)]
-            for i, t in enumerate(trees):
-                parts[assign[i]].add_tree(t)
             master_explicit = rng.random() < 0.5
             master = new_array(ns, rooted, master_explicit, cfg)
             d2 = dict(det, op=opname, part_sizes=[sizes[j] for j in order], explicit_rooting=[explicit[j] for j in order],
@@ -322,6 +330,12 @@ def run_library(ctx, case, rng):
                 continue
             ctx.ev("merge-compared-with-serial")
             compare_summaries(ctx, base, got, opname, d2)
+            for j in range(k):
+                ctx.ev("source-unchanged-checked")
+                if part_state(parts[j]) != before_parts[j]:
+                    ctx.violation("%s|merge-changes-its-source-collection" % opname,
+                                  "a sub-collection of %d trees differs after it was merged into another collection" % sizes[j], d2)
+                    before_parts[j] = part_state(parts[j])
             nonempty = [sizes[j] for j in order if sizes[j]]
             seen_nonempty = False
             empty_after = False
